@@ -219,7 +219,7 @@ def _rand_objs(rng):
                 b = rng.randint(0, 12)
                 o["b"], o["e"] = b, b + rng.randint(0, 8)
             elif x < 0.8:
-                o["b"], o["e"] = rng.randint(-25, 25), rng.randint(-25, 25)
+                o["b"], o["e"] = rng.randint(-14, 14), rng.randint(-14, 25)
             elif x < 0.9:
                 o["b"], o["e"] = rng.choice([None, 2]), rng.choice([None, 5])
             else:
@@ -301,12 +301,20 @@ def _scenario(rng, max_ops):
     for i in range(rng.randint(3, max_ops)):
         op = _rand_op(rng, book, sc, early=i < 3)
         sc["ops"].append(op)
-        book.apply(op)
+        r = book.apply(op)
+        if op["k"] == "add" and r == ["ok"] and book.objs[op["o"]]["has_span"] and rng.random() < 0.35:
+            if book.views[book.handles[op["h"]][0]]["text"] is None and rng.random() < 0.7:
+                t = {"k": "set_text", "h": rng.randrange(len(book.handles)), "v": rng.choice(TEXTS)}
+                sc["ops"].append(t)
+                book.apply(t)
+            c = {"k": "covered", "o": op["o"]}
+            sc["ops"].append(c)
+            book.apply(c)
     return sc
 
 
 def generate(rng, tier):
-    n, max_ops = {"quick": (1500, 14), "thorough": (8000, 24), "search": (4000, 16)}[tier]
+    n, max_ops = {"quick": (1000, 14), "thorough": (5000, 24), "search": (4000, 16)}[tier]
     for _ in range(n):
         yield _scenario(rng, max_ops)
 
@@ -389,6 +397,11 @@ def run_impl(cassis, sc):
     results = []
     for op in sc["ops"]:
         k = op["k"]
+        if op.get("o") is not None and op["o"] not in objs:
+            # a structure the history says the CAS created itself was never seen through any handle
+            results.append(["unseen_structure", op["o"]])
+            snaps.append(observe())
+            continue
         try:
             if k == "covered":
                 r = ["text", objs[op["o"]].get_covered_text()]
@@ -610,6 +623,8 @@ def _gres(r):
 
 
 def render(sc, obs):
+    if any(r[0] == "unseen_structure" for r in obs["results"]):
+        return None
     for snap in obs["snaps"]:
         for got in snap["per"]:
             for f in ("text", "mime", "uri"):
@@ -648,6 +663,10 @@ def _valid(sc):
         book = Book(sc)
         for op in sc["ops"]:
             if "h" in op and op["h"] >= len(book.handles):
+                return False
+            if op.get("o") is not None and op["o"] not in book.objs:
+                return False
+            if op["k"] == "set_arr" and op["v"] is not None and op["v"] not in book.objs:
                 return False
             book.apply(op)
         return True
